@@ -69,3 +69,16 @@ def cat_property(items, form=list):
     if v is None or isinstance(v, list) or ev2.errors or len(ev2) != 1:
         return False, None, wire
     return True, [str(x) for x in v.cats], wire
+
+
+def switch_provider(name: str, route: int = 0):
+    """the documented ways of selecting a time zone provider are equivalent (each starts from an empty VTIMEZONE cache):
+    tzp.use(name), tzp.use_<name>(), icalendar.use_<name>() -- the harness takes them in turn"""
+    from icalendar.timezone import tzp
+    r = route % 3
+    if r == 0:
+        tzp.use(name)
+    elif r == 1:
+        getattr(tzp, f"use_{name}")()
+    else:
+        getattr(icalendar, f"use_{name}")()
